@@ -198,6 +198,14 @@ def main(argv=None):
             if got < minimum:
                 problems.append("deciding monitor %s reached %d < %d" % (name, got, minimum))
 
+    # anchor reach: the functions the property is anchored in must have been entered (sys.monitoring PY_START)
+    if not a.replay:
+        entered = set(extra.get("functions_entered", []))
+        missing = [f for f in getattr(mod, "ANCHORS", []) if f not in entered]
+        if missing:
+            problems.append("anchor functions never entered: %s" % ", ".join(missing))
+        extra["anchors_required"] = list(getattr(mod, "ANCHORS", []))
+
     # classify violations
     findings = load_findings()
     known_hit, new_viol = {}, []
